@@ -45,6 +45,14 @@ func c02Tomb(del bool) data.Point {
 	return data.Point{Type: data.PointTypeTombstone, Key: "0", Time: vInstant(19886, vRange(0, 3), 0, 0), Value: v}
 }
 
+// c02EdgePt: another edge point identity (a role) with an arbitrary value and
+// a time from the small range.
+func c02EdgePt(tag string) data.Point {
+	p := data.Point{Type: "role", Key: "0", Time: vInstant(19886, vRange(0, 3), 0, 0), Value: vF64(), Text: tag}
+	vAssume(p.Value == p.Value)
+	return p
+}
+
 func c02Find(ps data.Points, typ, key string) (data.Point, bool) {
 	for _, p := range ps {
 		if p.Type == typ && p.Key == key {
@@ -116,11 +124,17 @@ func HarnessC02Sync() {
 	if childL {
 		cL = c02Points("L")
 		ceL = data.Points{c02Tomb(false)}
+		if vParam("role", 1) == 1 && vBool() {
+			ceL = append(ceL, c02EdgePt("L"))
+		}
 		local = append(local, data.NodeEdge{ID: "c", Parent: "d", Type: "x", Points: cL, EdgePoints: ceL})
 	}
 	if childR {
 		cR = c02Points("R")
 		ceR = data.Points{c02Tomb(vParam("deleted", 0) == 1 && vBool())}
+		if vParam("role", 1) == 1 && vBool() {
+			ceR = append(ceR, c02EdgePt("R"))
+		}
 		remote = append(remote, data.NodeEdge{ID: "c", Parent: "d", Type: "x", Points: cR, EdgePoints: ceR})
 	}
 	if childL && childR {
@@ -211,6 +225,18 @@ func HarnessC02Sync() {
 		we, _ := c02Find(wantE, data.PointTypeTombstone, "0")
 		le, _ := c02Find(cl[0].EdgePoints, data.PointTypeTombstone, "0")
 		re, _ := c02Find(cr[0].EdgePoints, data.PointTypeTombstone, "0")
+		if !deletedUp {
+			// every other edge point identity: both sides hold the newest accepted on either side
+			wr, okW := c02Find(wantE, "role", "0")
+			lr, okL := c02Find(cl[0].EdgePoints, "role", "0")
+			rr, okR := c02Find(cr[0].EdgePoints, "role", "0")
+			vAssert(okL == okW && okR == okW, "an edge point present on one side is present on both after catch-up")
+			if okW {
+				vCover("c02: edge point compared")
+				vAssert(lr.Time.Equal(wr.Time) && lr.Value == wr.Value && lr.Text == wr.Text, "downstream holds the newest edge point per identity")
+				vAssert(rr.Time.Equal(wr.Time) && rr.Value == wr.Value && rr.Text == wr.Text, "upstream holds the newest edge point per identity")
+			}
+		}
 		if childL && childR {
 			vCover("c02: child on both sides")
 			vAssert(le.Value == we.Value && re.Value == we.Value, pre+"both sides agree on the newest deletion state of the child; no accepted deletion is reverted")
